@@ -313,6 +313,14 @@ def build_attr_value(v):
         return False
     if t == "none":
         return None
+    if t == "bad":
+        # objects that are not attribute values
+        import datetime as _dt
+        import pathlib as _pl
+        return {"date": lambda: _dt.date(2024, 2, 29), "datetime": lambda: _dt.datetime(2024, 2, 29, 12, 30), "time": lambda: _dt.time(12, 30),
+                "path": lambda: _pl.PurePosixPath("a/b.png"), "list": lambda: ["a", "b"], "tuple": lambda: ("a", "b"), "dict": lambda: {"k": "v"}, "bytes": lambda: b"raw",
+                "object": object, "set": lambda: {"a"}, "fraction": lambda: __import__("fractions").Fraction(1, 2), "decimal": lambda: __import__("decimal").Decimal("1.5"),
+                "complex": lambda: 1j, "callable": lambda: (lambda: "x"), "uuid": lambda: __import__("uuid").UUID(int=5), "timedelta": lambda: _dt.timedelta(seconds=90)}[v["v"]]()
     raise ValueError(t)
 
 
